@@ -419,6 +419,10 @@ namespace bloch::compiler {
 
         std::vector<std::unique_ptr<AnnotationNode>> trailingAnnotations = parseAnnotations();
         for (auto& ann : trailingAnnotations) annotations.push_back(std::move(ann));
+        for (auto& ann : annotations) {
+            if (ann && ann->name == "shots")
+                reportError("\"@shots\" may only annotate the 'main' function");
+        }
 
         if (match(TokenType::Constructor)) {
             if (!annotations.empty()) {
@@ -719,9 +723,13 @@ namespace bloch::compiler {
         while (check(TokenType::At)) {
             // TODO: refactor this, currently if invalid variable annotation is used, it will be
             // caught rather than thrown this is a rather hacky solution.
+            size_t annotationStart = m_current;
             try {
                 annotations.push_back(parseVariableAnnotation());
             } catch (BlochError error) {
+                // parseVariableAnnotation consumed the '@' before failing: rewind so that the
+                // function/method annotation parser sees the whole annotation.
+                m_current = annotationStart;
                 annotations.push_back(parseFunctionAnnotation());
             }
         }
